@@ -1,6 +1,7 @@
 \* C20 case emission: every configuration with the response the spec predicts (UnsupportedRule is set by the check to what the tree does).
 CONSTANTS
   UnsupportedRule = "pass"
+  ParseRule = "scripting"
   CspRule = "policylist"
   LengthRule = "set"
   EmitCases = TRUE
